@@ -44,6 +44,9 @@ func Generate(r *rand.Rand, profile string) *Scenario {
 	if profile == "quota" {
 		return generateQuotaTree(r)
 	}
+	if profile == "unobs2" {
+		return generateUnobstructedMulti(r)
+	}
 	if profile == "bindfail" || profile == "overhead" || profile == "nested" || profile == "sharers" {
 		return generateTight(r, profile)
 	}
@@ -1313,6 +1316,138 @@ func generateQuotaTree(r *rand.Rand) *Scenario {
 		}
 		sc.Jobs = append(sc.Jobs, job)
 		sc.Pods = append(sc.Pods, p)
+	}
+	sc.Normalize()
+	return sc
+}
+
+
+// generateUnobstructedMulti: the unobstructed class with SEVERAL claimant queues. Uniform full cluster of
+// single-pod 1-GPU jobs; one over-quota victim queue (a leaf, or a department with two leaves) holding most of the
+// cluster; 2-3 claimant leaf queues (siblings of the victims or under another department) with 1-3 pending
+// single-pod jobs each, of mixed priority and preemptibility; some claimant queues are within their deserved
+// quota (entitled), others are not (bystanders: over quota, or non-preemptible beyond the department's quota).
+// A preempt variant has all claimants in the victims' queue. The spec decides who is entitled.
+func generateUnobstructedMulti(r *rand.Rand) *Scenario {
+	pick := func(vs ...int) int { return vs[r.Intn(len(vs))] }
+	chance := func(p float64) bool { return r.Float64() < p }
+	sc := &Scenario{Class: "unobs2"}
+	sc.Cfg = Cfg{Placement: []string{"binpack", "spread"}[r.Intn(2)], Consolidation: pick(0, 1), Signatures: pick(0, 1, 1),
+		ConsReclaim: pick(0, 1), SatMult: pick(1000, 1200), Cycles: 1, Env: "closed", FullHier: 1}
+	nn := pick(2, 2, 3)
+	g := pick(2, 3, 4)
+	for i := 0; i < nn; i++ {
+		sc.Nodes = append(sc.Nodes, Node{Name: fmt.Sprintf("n%d", i+1), Cpu: 32000, Mem: 64000, Pods: 110, Gpus: g, GpuMem: 40000, Ready: 1})
+	}
+	total := nn * g
+	q := func(name string, parent, gq int) int {
+		sc.Queues = append(sc.Queues, Queue{Name: name, Parent: parent, Prio: 100, GQ: gq, GL: -1, GW: 1, CQ: -1, CL: -1, MQ: -1, ML: -1})
+		return len(sc.Queues)
+	}
+	k := 0
+	addJob := func(queue, prio, pre, node int) {
+		k++
+		ls, phase := -1, "P"
+		if node > 0 {
+			ls, phase = 36000, "R"
+		}
+		sc.Jobs = append(sc.Jobs, Job{Name: fmt.Sprintf("j%d", k), Queue: queue, Prio: prio, Preempt: pre, Min: 1, Age: 600 + 60*r.Intn(60), LastStart: ls})
+		sc.Pods = append(sc.Pods, Pod{Name: fmt.Sprintf("j%d-p1", k), Job: k, Cpu: 500, Mem: 500, Gpu: 1, Phase: phase, Node: node})
+	}
+	var slots []int // node index per GPU
+	for n := 0; n < nn; n++ {
+		for d := 0; d < g; d++ {
+			slots = append(slots, n+1)
+		}
+	}
+	if chance(0.3) {
+		// preempt variant: one queue, low-priority preemptible victims, claimants of higher priorities, some of them
+		// non-preemptible with a deserved quota that covers only part of them
+		sc.Class = "unobs2-preempt"
+		q("d1", 0, -1)
+		qa := q("qa", 1, pick(0, 1, 2)*1000)
+		for _, n := range slots {
+			addJob(qa, 50, 1, n)
+		}
+		for c := 0; c < pick(2, 3, 4); c++ {
+			addJob(qa, pick(60, 75, 75), pick(0, 1, 1), 0)
+		}
+		sc.Normalize()
+		return sc
+	}
+	sc.Class = "unobs2-reclaim"
+	twoDeps := chance(0.4)
+	q("d1", 0, pick(-1, -1, 1000, 2000, 3000))
+	d2 := 1
+	if twoDeps {
+		// the claimants' department deserves some; the victims' department is over its own quota
+		sc.Queues[0].GQ = pick(0, 1000, 2000)
+		d2 = q("d2", 0, pick(0, 1, 1, 2, 3, total)*1000)
+	}
+	var victimLeaves []int
+	victimLeaves = append(victimLeaves, q("va", 1, pick(0, 0, 1)*1000))
+	if chance(0.3) {
+		victimLeaves = append(victimLeaves, q("vb", 1, 0))
+	}
+	// a queue of running NON-preemptible pods within its quota (they use up the department's non-preemptible quota)
+	npQ, npRun := 0, 0
+	if chance(0.5) {
+		npRun = pick(1, 2)
+		npQ = q("e", 1, npRun*1000)
+	}
+	nc := pick(2, 2, 3)
+	var claimQ []int
+	for i := 0; i < nc; i++ {
+		par := d2
+		if twoDeps && chance(0.4) {
+			par = 1 // a claimant queue next to the victims, the others under the second department
+		}
+		claimQ = append(claimQ, q(fmt.Sprintf("c%d", i+1), par, pick(0, 1, 1, 2, 2, 3)*1000))
+	}
+	// "stuck bystander": the running non-preemptible pods use up the department's deserved quota, so a
+	// non-preemptible claimant of that department passes its own queue's checks and is still refused
+	stuck, stuckMid := 0, false
+	if npRun > 0 && !twoDeps && chance(0.6) {
+		stuck = claimQ[r.Intn(nc)]
+		if sc.Queues[stuck-1].GQ == 0 {
+			sc.Queues[stuck-1].GQ = 1000
+		}
+		if chance(0.5) {
+			sc.Queues[0].GQ = npRun * 1000
+		} else {
+			// the same one level down: a mid-level queue holds the non-preemptible pods and the stuck claimants;
+			// the other claimant queues hang directly under the (unlimited) department and may be non-preemptible
+			stuckMid = true
+			sc.Queues[0].GQ = -1
+			mid := q("m1", 1, npRun*1000)
+			sc.Queues[npQ-1].Parent = mid
+			sc.Queues[stuck-1].Parent = mid
+		}
+	}
+	for i, n := range slots {
+		if i < npRun {
+			addJob(npQ, 50, 0, n)
+			continue
+		}
+		if i == npRun && chance(0.2) {
+			addJob(claimQ[r.Intn(nc)], 50, pick(0, 1), n)
+			continue
+		}
+		addJob(victimLeaves[r.Intn(len(victimLeaves))], 50, 1, n)
+	}
+	for _, cq := range claimQ {
+		pre := pick(0, 1, 1, 1)
+		for c := 0; c < pick(1, 1, 2, 2, 3); c++ {
+			if chance(0.2) {
+				pre = 1 - pre
+			}
+			if cq == stuck {
+				pre = 0
+			} else if stuck > 0 && !stuckMid {
+				pre = 1
+			}
+			addJob(cq, pick(50, 50, 75), pre, 0)
+		}
 	}
 	sc.Normalize()
 	return sc
